@@ -12,22 +12,31 @@
 #include <stdlib.h>
 #include "spec.h"
 
-/* ---- harness side: build an arbitrary mpz (heap limb array as GMP does) from witness scalars */
+/* ---- harness side: build an arbitrary mpz from witness scalars (heap limb array as GMP does; GM_FLAT: no array, see spec.h) */
+#ifdef GM_FLAT
+static void z_build(Z *z, uint32_t size, uint64_t d0, uint64_t d1){ MP(z)->f0 = (uint32_t)d1; MP(z)->f1 = size; MP(z)->f2 = (uint64_t *)d0; }
+#define ZFRESH(tag, p) FRESH(tag, p, sizeof(Z))
+#define ZOUT(r) 1
+#define ZLIMBS_(p)
+#define OLDZ(p) v3(OLD(MP(p)->f1), (uint64_t)OLD(MP(p)->f2), (uint64_t)OLD(MP(p)->f0))
+#define ZSAME(p) 1
+#else
 static void z_build(Z *z, uint32_t size, uint64_t d0, uint64_t d1){
   uint64_t *d = (uint64_t *)malloc(LIMBBYTES);
   __CPROVER_assume(d != 0);          /* environment: the allocation of the INPUT succeeded (cbmc 6: malloc may return NULL) */
   d[0] = d0; d[1] = d1;
   MP(z)->f0 = NLIMB; MP(z)->f1 = size; MP(z)->f2 = d; }
-#define INZ(a) GHOST(uint32_t, a##_size); GHOST(uint64_t, a##_d0); GHOST(uint64_t, a##_d1); Z a; z_build(&a, a##_size, a##_d0, a##_d1)
 /* pointer preconditions: the object and its limb array (harness-owned when enforced, is_fresh when the contract replaces a call) */
 #define ZFRESH(tag, p) (FRESH(tag, p, sizeof(Z)) && FRESH(tag, MP(p)->f2, LIMBBYTES))
 /* a result owns a valid limb array of its own (not shared with an operand) */
 #define ZOUT(r) (__CPROVER_is_fresh(MP(r)->f2, LIMBBYTES))
-#define ZLIMBS(p) __CPROVER_object_whole(MP(p)->f2)
+#define ZLIMBS_(p) , __CPROVER_object_whole(MP(p)->f2)
+/* p still owns the same limb array */
+#define ZSAME(p) (MP(p)->f2 == OLD(MP(p)->f2))
+#endif
+#define INZ(a) GHOST(uint32_t, a##_size); GHOST(uint64_t, a##_d0); GHOST(uint64_t, a##_d1); Z a; z_build(&a, a##_size, a##_d0, a##_d1)
 #define RET __CPROVER_return_value
 #define OLD __CPROVER_old
-/* value of *p in the pre-state */
-#define OLDZ(p) v3(OLD(MP(p)->f1), OLD(MP(p)->f2[0]), OLD(MP(p)->f2[1]))
 /* NOEXIT(id, e): extra precondition that only exists in the twin check <id>_noexit */
 #define IN1(lim) Z_OK(self, lim)
 #define IN2(lim) (Z_OK(self, lim) && Z_OK(x, lim))
@@ -77,8 +86,8 @@ void h_z_move(void){ Z r; INZ(b); _ZN4ikos8z_numberC2EOS0_(&r, &b); REACH; }
 //@check id=z_assign fn=_ZN4ikos8z_numberaSERKS0_ props=C20 backends=minisat,z3,cvc5 first_timeout=60
 Z *_ZN4ikos8z_numberaSERKS0_(Z *self, Z *x)
 __CPROVER_requires(ZFRESH(z_assign, self) && ZFRESH(z_assign, x) && IN2(ZLIM))
-__CPROVER_assigns(*self, ZLIMBS(self))
-__CPROVER_ensures(RET == self && Z_OK(self, ZLIM) && ZV(self) == ZV(x) && (self == x || MP(self)->f2 != MP(x)->f2) && MP(self)->f2 == OLD(MP(self)->f2));
+__CPROVER_assigns(*self ZLIMBS_(self))
+__CPROVER_ensures(RET == self && Z_OK(self, ZLIM) && ZV(self) == ZV(x) && (self == x || MP(self)->f2 != MP(x)->f2) && ZSAME(self));
 void h_z_assign(void){ INZ(a); INZ(b); _ZN4ikos8z_numberaSERKS0_(&a, &b); REACH; }
 /* self assignment keeps the value */
 //@check id=z_assign_self fn=_ZN4ikos8z_numberaSERKS0_ tag=z_assign props=C20 backends=minisat,z3,cvc5 first_timeout=60
@@ -172,8 +181,8 @@ void h_##tag(void){ INZ(a); INZ(b); Z r; fn(&r, &a, &b); REACH; }
 Z *fn(Z *self, Z *x) \
 __CPROVER_requires(ZFRESH(tag, self) && ZFRESH(tag, x)) \
 __CPROVER_requires(PRE) \
-__CPROVER_assigns(*self, ZLIMBS(self)) \
-__CPROVER_ensures(RET == self && Z_OK(self, ZLIM) && MP(self)->f2 == OLD(MP(self)->f2) && (POST)); \
+__CPROVER_assigns(*self ZLIMBS_(self)) \
+__CPROVER_ensures(RET == self && Z_OK(self, ZLIM) && ZSAME(self) && (POST)); \
 void h_##tag(void){ INZ(a); INZ(b); fn(&a, &b); REACH; }
 #define OLDV OLDZ(self)
 
@@ -232,8 +241,8 @@ ZASG(z_rem_asg, _ZN4ikos8z_numberrMES0_, IN2(DIVB) && NOEXIT_DIV, ZV(x) != 0 && 
 #define ZPRE(tag, fn, POST) \
 Z *fn(Z *self) \
 __CPROVER_requires(ZFRESH(tag, self) && IN1(ZB)) \
-__CPROVER_assigns(*self, ZLIMBS(self)) \
-__CPROVER_ensures(RET == self && Z_OK(self, ZLIM) && MP(self)->f2 == OLD(MP(self)->f2) && (POST)); \
+__CPROVER_assigns(*self ZLIMBS_(self)) \
+__CPROVER_ensures(RET == self && Z_OK(self, ZLIM) && ZSAME(self) && (POST)); \
 void h_##tag(void){ INZ(a); fn(&a); REACH; }
 //@check id=z_preinc fn=_ZN4ikos8z_numberppEv props=C20 backends=minisat,z3,cvc5 first_timeout=60
 ZPRE(z_preinc, _ZN4ikos8z_numberppEv, ZV(self) == OLDV + 1)
@@ -242,9 +251,9 @@ ZPRE(z_predec, _ZN4ikos8z_numbermmEv, ZV(self) == OLDV - 1)
 #define ZPOSTOP(tag, fn, POST) \
 void fn(Z *ret, Z *self, uint32_t dummy) \
 __CPROVER_requires(FRESH(tag, ret, sizeof(Z)) && ZFRESH(tag, self) && IN1(ZB)) \
-__CPROVER_assigns(*ret, *self, ZLIMBS(self)) \
+__CPROVER_assigns(*ret, *self ZLIMBS_(self)) \
 __CPROVER_ensures(ZOUT(ret) && MP(ret)->f2 != MP(self)->f2 && Z_OK(ret, ZLIM) && ZV(ret) == OLDV) \
-__CPROVER_ensures(Z_OK(self, ZLIM) && MP(self)->f2 == OLD(MP(self)->f2) && (POST)); \
+__CPROVER_ensures(Z_OK(self, ZLIM) && ZSAME(self) && (POST)); \
 void h_##tag(void){ INZ(a); Z r; fn(&r, &a, 0); REACH; }
 //@check id=z_postinc fn=_ZN4ikos8z_numberppEi props=C20 backends=minisat,z3,cvc5 first_timeout=60
 ZPOSTOP(z_postinc, _ZN4ikos8z_numberppEi, ZV(self) == OLDV + 1)
@@ -297,9 +306,187 @@ ZBIN(z_shr, _ZNK4ikos8z_numberrsES0_, IN2(ZLIM) && ZV(x) >= 0 && ZV(x) < P2(64),
 #ifndef FILLBITS
 #define FILLBITS 8
 #endif
-//@check id=z_fill_ones fn=_ZNK4ikos8z_number9fill_onesEv props=C20 defs=GM_PRECISE,FILLBITS=8 unwind=10 backends=z3,minisat,cvc5 first_timeout=200 timeout=300
+//@check id=z_fill_ones fn=_ZNK4ikos8z_number9fill_onesEv props=C20 defs=GM_FLAT,GM_PRECISE vary=FILLBITS:4,8 unwind=10 backends=minisat,z3 first_timeout=300 timeout=300
 void _ZNK4ikos8z_number9fill_onesEv(Z *ret, Z *self)
 __CPROVER_requires(FRESH(z_fill_ones, ret, sizeof(Z)) && ZFRESH(z_fill_ones, self) && IN1(P2(FILLBITS)) && ZV(self) >= 0)
 __CPROVER_assigns(*ret)
 __CPROVER_ensures(ZOUT(ret) && Z_OK(ret, ZLIM) && ZV(ret) == s_fill(ZV(self)));
 void h_z_fill_ones(void){ INZ(a); Z r; _ZNK4ikos8z_number9fill_onesEv(&r, &a); REACH; }
+
+/* ================================================================== q_number
+ * A q_number is the pair (numerator, denominator) of an mpq.  GMP: "All rational arithmetic functions assume operands have a
+ * canonical form" (denominator > 0, no common factor): Q_CANON is the precondition of comparisons and rounding, and what
+ * constructors and arithmetic must deliver.  QN / QD read numerator and denominator. */
+#ifdef GM_FLAT
+static void q_build(Q *q, uint32_t ns, uint64_t n0, uint64_t n1, uint32_t ds, uint64_t d0, uint64_t d1){
+  QNUM(q)->f0 = (uint32_t)n1; QNUM(q)->f1 = ns; QNUM(q)->f2 = (uint64_t *)n0;
+  QDEN(q)->f0 = (uint32_t)d1; QDEN(q)->f1 = ds; QDEN(q)->f2 = (uint64_t *)d0; }
+#define QFRESH(tag, p) FRESH(tag, p, sizeof(Q))
+#define QOUT(r) 1
+#define QLIMBS_(p)
+#define OLDQN(p) v3(OLD(QNUM(p)->f1), (uint64_t)OLD(QNUM(p)->f2), (uint64_t)OLD(QNUM(p)->f0))
+#define OLDQD(p) v3(OLD(QDEN(p)->f1), (uint64_t)OLD(QDEN(p)->f2), (uint64_t)OLD(QDEN(p)->f0))
+#define SAMEARRAYS(q) 1
+#else
+static void q_build(Q *q, uint32_t ns, uint64_t n0, uint64_t n1, uint32_t ds, uint64_t d0, uint64_t d1){
+  uint64_t *n = (uint64_t *)malloc(LIMBBYTES), *d = (uint64_t *)malloc(LIMBBYTES);
+  __CPROVER_assume(n != 0 && d != 0);   /* environment: the allocation of the INPUT succeeded */
+  n[0] = n0; n[1] = n1; d[0] = d0; d[1] = d1;
+  QNUM(q)->f0 = NLIMB; QNUM(q)->f1 = ns; QNUM(q)->f2 = n;
+  QDEN(q)->f0 = NLIMB; QDEN(q)->f1 = ds; QDEN(q)->f2 = d; }
+#define QFRESH(tag, p) (FRESH(tag, p, sizeof(Q)) && FRESH(tag, QNUM(p)->f2, LIMBBYTES) && FRESH(tag, QDEN(p)->f2, LIMBBYTES))
+#define QOUT(r) (__CPROVER_is_fresh(QNUM(r)->f2, LIMBBYTES) && __CPROVER_is_fresh(QDEN(r)->f2, LIMBBYTES))
+#define QLIMBS_(p) , __CPROVER_object_whole(QNUM(p)->f2), __CPROVER_object_whole(QDEN(p)->f2)
+#define OLDQN(p) v3(OLD(QNUM(p)->f1), OLD(QNUM(p)->f2[0]), OLD(QNUM(p)->f2[1]))
+#define OLDQD(p) v3(OLD(QDEN(p)->f1), OLD(QDEN(p)->f2[0]), OLD(QDEN(p)->f2[1]))
+#define SAMEARRAYS(q) (QNUM(q)->f2 == OLD(QNUM(q)->f2) && QDEN(q)->f2 == OLD(QDEN(q)->f2))
+#endif
+#define INQ(a) GHOST(uint32_t, a##n_size); GHOST(uint64_t, a##n_d0); GHOST(uint64_t, a##n_d1); GHOST(uint32_t, a##d_size); GHOST(uint64_t, a##d_d0); GHOST(uint64_t, a##d_d1); \
+  Q a; q_build(&a, a##n_size, a##n_d0, a##n_d1, a##d_size, a##d_d0, a##d_d1)
+#define Q_IS(q, n, d) (Q_OK(q, ZLIM) && QN(q) == (n) && QD(q) == (d))
+
+//@check id=q_ctor0 fn=_ZN4ikos8q_numberC2Ev props=C20 backends=minisat,z3,cvc5 first_timeout=60
+void _ZN4ikos8q_numberC2Ev(Q *self)
+__CPROVER_requires(FRESH(q_ctor0, self, sizeof(Q)))
+__CPROVER_assigns(*self)
+__CPROVER_ensures(QOUT(self) && Q_IS(self, 0, 1));
+void h_q_ctor0(void){ Q r; _ZN4ikos8q_numberC2Ev(&r); REACH; }
+//@check id=q_ctor_z fn=_ZN4ikos8q_numberC2ERKNS_8z_numberE props=C20 backends=minisat,z3,cvc5 first_timeout=60
+void _ZN4ikos8q_numberC2ERKNS_8z_numberE(Q *self, Z *x)
+__CPROVER_requires(FRESH(q_ctor_z, self, sizeof(Q)) && ZFRESH(q_ctor_z, x) && Z_OK(x, ZLIM))
+__CPROVER_assigns(*self)
+__CPROVER_ensures(QOUT(self) && Q_IS(self, ZV(x), 1));
+void h_q_ctor_z(void){ Q r; INZ(b); _ZN4ikos8q_numberC2ERKNS_8z_numberE(&r, &b); REACH; }
+/* q_number(num, den): the rational num/den, in canonical form (it is passed to the comparison, rounding and arithmetic
+ * members, whose GMP calls assume it); den = 0 is not a rational: if the call returns, den != 0 */
+#ifdef CHECK_q_ctor_zz_noexit
+#define NOEXIT_q_ctor_zz (ZV(d) != 0)
+#else
+#define NOEXIT_q_ctor_zz 1
+#endif
+//@check id=q_ctor_zz fn=_ZN4ikos8q_numberC2ERKNS_8z_numberES3_ props=C20 allow_error=1 backends=minisat,z3,cvc5 first_timeout=60
+//@check id=q_ctor_zz_noexit fn=_ZN4ikos8q_numberC2ERKNS_8z_numberES3_ tag=q_ctor_zz harness=h_q_ctor_zz props=C20 backends=minisat,z3,cvc5 first_timeout=60
+void _ZN4ikos8q_numberC2ERKNS_8z_numberES3_(Q *self, Z *n, Z *d)
+__CPROVER_requires(FRESH(q_ctor_zz, self, sizeof(Q)) && ZFRESH(q_ctor_zz, n) && ZFRESH(q_ctor_zz, d) && Z_OK(n, ZLIM) && Z_OK(d, ZLIM) && (NOEXIT_q_ctor_zz))
+__CPROVER_assigns(*self)
+__CPROVER_ensures(QOUT(self) && Q_OK(self, ZLIM))
+__CPROVER_ensures(ZV(d) != 0 && QD(self) > 0)
+__CPROVER_ensures(Q_CANON(self) && QN(self) == GM_cann(ZV(n), ZV(d)) && QD(self) == GM_cand(ZV(n), ZV(d)));
+void h_q_ctor_zz(void){ Q r; INZ(a); INZ(b); _ZN4ikos8q_numberC2ERKNS_8z_numberES3_(&r, &a, &b); REACH; }
+
+//@check id=q_copy fn=_ZN4ikos8q_numberC2ERKS0_ props=C20 backends=minisat,z3,cvc5 first_timeout=60
+void _ZN4ikos8q_numberC2ERKS0_(Q *self, Q *x)
+__CPROVER_requires(FRESH(q_copy, self, sizeof(Q)) && QFRESH(q_copy, x) && Q_OK(x, ZLIM))
+__CPROVER_assigns(*self)
+__CPROVER_ensures(QOUT(self) && QNUM(self)->f2 != QNUM(x)->f2 && QDEN(self)->f2 != QDEN(x)->f2 && Q_IS(self, QN(x), QD(x)));
+void h_q_copy(void){ Q r; INQ(b); _ZN4ikos8q_numberC2ERKS0_(&r, &b); REACH; }
+//@check id=q_move fn=_ZN4ikos8q_numberC2EOS0_ props=C20 backends=minisat,z3,cvc5 first_timeout=60
+void _ZN4ikos8q_numberC2EOS0_(Q *self, Q *x)
+__CPROVER_requires(FRESH(q_move, self, sizeof(Q)) && QFRESH(q_move, x) && Q_OK(x, ZLIM))
+__CPROVER_assigns(*self, *x)
+__CPROVER_ensures(Q_IS(self, OLDQN(x), OLDQD(x)) && QNUM(self)->f2 == OLD(QNUM(x)->f2) && QDEN(self)->f2 == OLD(QDEN(x)->f2))
+__CPROVER_ensures(QOUT(x) && Q_IS(x, 0, 1));
+void h_q_move(void){ Q r; INQ(b); _ZN4ikos8q_numberC2EOS0_(&r, &b); REACH; }
+//@check id=q_assign fn=_ZN4ikos8q_numberaSERKS0_ props=C20 backends=minisat,z3,cvc5 first_timeout=60
+Q *_ZN4ikos8q_numberaSERKS0_(Q *self, Q *x)
+__CPROVER_requires(QFRESH(q_assign, self) && QFRESH(q_assign, x) && Q_OK(self, ZLIM) && Q_OK(x, ZLIM))
+__CPROVER_assigns(*self QLIMBS_(self))
+__CPROVER_ensures(RET == self && SAMEARRAYS(self) && Q_IS(self, QN(x), QD(x)));
+void h_q_assign(void){ INQ(a); INQ(b); _ZN4ikos8q_numberaSERKS0_(&a, &b); REACH; }
+/* move assignment swaps the two mpq (std::swap of a 1-element array: loop of 1 iteration, unwound) */
+//@check id=q_move_assign fn=_ZN4ikos8q_numberaSEOS0_ props=C20 unwind=2 backends=minisat,z3,cvc5 first_timeout=60
+Q *_ZN4ikos8q_numberaSEOS0_(Q *self, Q *x)
+__CPROVER_requires(QFRESH(q_move_assign, self) && QFRESH(q_move_assign, x) && Q_OK(self, ZLIM) && Q_OK(x, ZLIM))
+__CPROVER_assigns(*self, *x)
+__CPROVER_ensures(RET == self && Q_IS(self, OLDQN(x), OLDQD(x)) && Q_IS(x, OLDQN(self), OLDQD(self)))
+__CPROVER_ensures(QNUM(self)->f2 == OLD(QNUM(x)->f2) && QDEN(self)->f2 == OLD(QDEN(x)->f2) && QNUM(x)->f2 == OLD(QNUM(self)->f2) && QDEN(x)->f2 == OLD(QDEN(self)->f2));
+void h_q_move_assign(void){ INQ(a); INQ(b); _ZN4ikos8q_numberaSEOS0_(&a, &b); REACH; }
+//@check id=q_dtor fn=_ZN4ikos8q_numberD2Ev props=C20 backends=minisat,z3,cvc5 first_timeout=60
+void _ZN4ikos8q_numberD2Ev(Q *self)
+__CPROVER_requires(QFRESH(q_dtor, self) && Q_OK(self, ZLIM))
+__CPROVER_assigns()
+__CPROVER_frees(QNUM(self)->f2, QDEN(self)->f2)
+__CPROVER_ensures(__CPROVER_was_freed(QNUM(self)->f2) && __CPROVER_was_freed(QDEN(self)->f2));
+void h_q_dtor(void){ INQ(a); _ZN4ikos8q_numberD2Ev(&a); REACH; }
+
+#define QGET(tag, fn, FIELD) \
+void fn(Z *ret, Q *self) \
+__CPROVER_requires(FRESH(tag, ret, sizeof(Z)) && QFRESH(tag, self) && Q_OK(self, ZLIM)) \
+__CPROVER_assigns(*ret) \
+__CPROVER_ensures(ZOUT(ret) && Z_OK(ret, ZLIM) && ZV(ret) == FIELD(self)); \
+void h_##tag(void){ INQ(a); Z r; fn(&r, &a); REACH; }
+//@check id=q_numerator fn=_ZNK4ikos8q_number9numeratorEv props=C20 backends=minisat,z3,cvc5 first_timeout=60
+QGET(q_numerator, _ZNK4ikos8q_number9numeratorEv, QN)
+//@check id=q_denominator fn=_ZNK4ikos8q_number11denominatorEv props=C20 backends=minisat,z3,cvc5 first_timeout=60
+QGET(q_denominator, _ZNK4ikos8q_number11denominatorEv, QD)
+
+/* comparisons of canonical rationals: the order of the rationals, by cross multiplication (denominators are positive) */
+#define QIN2 (Q_OK(self, QB) && Q_OK(x, QB) && Q_CANON(self) && Q_CANON(x))
+#define QCMP(tag, fn, EXPR) \
+unsigned char fn(Q *self, Q *x) \
+__CPROVER_requires(QFRESH(tag, self) && QFRESH(tag, x) && QIN2) \
+__CPROVER_assigns() \
+__CPROVER_ensures(RET == ((EXPR) ? 1 : 0)); \
+void h_##tag(void){ INQ(a); INQ(b); fn(&a, &b); REACH; }
+#define SLT s_qlt(QN(self), QD(self), QN(x), QD(x))
+#define SGT s_qlt(QN(x), QD(x), QN(self), QD(self))
+#define SEQ s_qeq(QN(self), QD(self), QN(x), QD(x))
+//@check id=q_eq fn=_ZNK4ikos8q_numbereqES0_ props=C20 backends=minisat,z3,cvc5 first_timeout=60
+QCMP(q_eq, _ZNK4ikos8q_numbereqES0_, SEQ)
+//@check id=q_ne fn=_ZNK4ikos8q_numberneES0_ props=C20 backends=minisat,z3,cvc5 first_timeout=60
+QCMP(q_ne, _ZNK4ikos8q_numberneES0_, !SEQ)
+//@check id=q_lt fn=_ZNK4ikos8q_numberltES0_ props=C20 backends=minisat,z3,cvc5 first_timeout=60
+QCMP(q_lt, _ZNK4ikos8q_numberltES0_, SLT)
+//@check id=q_le fn=_ZNK4ikos8q_numberleES0_ props=C20 backends=minisat,z3,cvc5 first_timeout=60
+QCMP(q_le, _ZNK4ikos8q_numberleES0_, !SGT)
+//@check id=q_gt fn=_ZNK4ikos8q_numbergtES0_ props=C20 backends=minisat,z3,cvc5 first_timeout=60
+QCMP(q_gt, _ZNK4ikos8q_numbergtES0_, SGT)
+//@check id=q_ge fn=_ZNK4ikos8q_numbergeES0_ props=C20 backends=minisat,z3,cvc5 first_timeout=60
+QCMP(q_ge, _ZNK4ikos8q_numbergeES0_, !SLT)
+
+/* ---- arithmetic.  Class invariant of q_number: canonical form (Q_INV): required of operands, ensured of results.
+ * ret = the canonical form of self (op) x: GM_qopn / GM_qopd, see models/gmpmodel.c; on integers (denominators 1) that is
+ * the integer operation (second clause).  x is passed by value: the callee may canonicalise that temporary in place. */
+#define Q_INV(q, lim) (Q_OK(q, lim) && Q_CANON(q))
+#define QRES(r, op, an, ad, bn, bd) (Q_OK(r, ZLIM) && Q_CANON(r) && QN(r) == GM_qopn(op, an, ad, bn, bd) && QD(r) == GM_qopd(op, an, ad, bn, bd))
+#define QINT(r, op, an, ad, bn, bd) ((ad) != 1 || (bd) != 1 || (QD(r) == 1 && QN(r) == ((op) == 0 ? (an) + (bn) : (op) == 1 ? (an) - (bn) : GM_mul(an, bn))))
+#define QBIN(tag, fn, op, NOEXIT) \
+void fn(Q *ret, Q *self, Q *x) \
+__CPROVER_requires(FRESH(tag, ret, sizeof(Q)) && QFRESH(tag, self) && QFRESH(tag, x) && Q_INV(self, QB) && Q_INV(x, QB) && (NOEXIT)) \
+__CPROVER_assigns(*ret, *x QLIMBS_(x)) \
+__CPROVER_ensures(QOUT(ret) && ((op) != 3 || OLDQN(x) != 0)) \
+__CPROVER_ensures(QRES(ret, op, QN(self), QD(self), OLDQN(x), OLDQD(x))) \
+__CPROVER_ensures((op) == 3 || QINT(ret, op, QN(self), QD(self), OLDQN(x), OLDQD(x))); \
+void h_##tag(void){ INQ(a); INQ(b); Q r; fn(&r, &a, &b); REACH; }
+//@check id=q_add fn=_ZNK4ikos8q_numberplES0_ props=C20 backends=minisat,z3,cvc5 first_timeout=100
+QBIN(q_add, _ZNK4ikos8q_numberplES0_, 0, 1)
+//@check id=q_sub fn=_ZNK4ikos8q_numbermiES0_ props=C20 backends=minisat,z3,cvc5 first_timeout=100
+QBIN(q_sub, _ZNK4ikos8q_numbermiES0_, 1, 1)
+//@check id=q_mul fn=_ZNK4ikos8q_numbermlES0_ props=C20 backends=minisat,z3,cvc5 first_timeout=100
+QBIN(q_mul, _ZNK4ikos8q_numbermlES0_, 2, 1)
+#if defined(CHECK_q_div_noexit) || defined(CHECK_q_div_asg_noexit)
+#define NOEXIT_QDIV (QN(x) != 0)
+#else
+#define NOEXIT_QDIV 1
+#endif
+//@check id=q_div fn=_ZNK4ikos8q_numberdvES0_ props=C20 allow_error=1 backends=z3,minisat,cvc5 first_timeout=100
+//@check id=q_div_noexit fn=_ZNK4ikos8q_numberdvES0_ tag=q_div harness=h_q_div props=C20 backends=z3,minisat,cvc5 first_timeout=100
+QBIN(q_div, _ZNK4ikos8q_numberdvES0_, 3, NOEXIT_QDIV)
+//@check id=q_neg fn=_ZNK4ikos8q_numberngEv props=C20 backends=minisat,z3,cvc5 first_timeout=100
+void _ZNK4ikos8q_numberngEv(Q *ret, Q *self)
+__CPROVER_requires(FRESH(q_neg, ret, sizeof(Q)) && QFRESH(q_neg, self) && Q_INV(self, QB))
+__CPROVER_assigns(*ret)
+__CPROVER_ensures(QOUT(ret) && Q_IS(ret, -QN(self), QD(self)) && Q_CANON(ret));
+void h_q_neg(void){ INQ(a); Q r; _ZNK4ikos8q_numberngEv(&r, &a); REACH; }
+
+/* rounding of a canonical rational to an integer: floor and ceiling of num/den */
+#define QROUND(tag, fn, SPEC) \
+void fn(Z *ret, Q *self) \
+__CPROVER_requires(FRESH(tag, ret, sizeof(Z)) && QFRESH(tag, self) && Q_INV(self, ZB)) \
+__CPROVER_assigns(*ret) \
+__CPROVER_ensures(ZOUT(ret) && Z_OK(ret, ZLIM) && ZV(ret) == SPEC(QN(self), QD(self))); \
+void h_##tag(void){ INQ(a); Z r; fn(&r, &a); REACH; }
+//@check id=q_round_upper fn=_ZNK4ikos8q_number14round_to_upperEv props=C20 defs=GM_FLAT backends=minisat,z3,cvc5 first_timeout=200 timeout=300
+QROUND(q_round_upper, _ZNK4ikos8q_number14round_to_upperEv, s_cdiv)
+//@check id=q_round_lower fn=_ZNK4ikos8q_number14round_to_lowerEv props=C20 defs=GM_FLAT backends=minisat,z3,cvc5 first_timeout=200 timeout=300
+QROUND(q_round_lower, _ZNK4ikos8q_number14round_to_lowerEv, s_fdiv)
